@@ -17,6 +17,8 @@ CONSTANTS
   AllowProgress = TRUE
   PreFF = {FALSE, TRUE}
   Coded = {}
+  SubErrs = {}
+  DetIds = {"fresh", "reuse"}
 CONSTRAINT ExportC
 INVARIANT Verdict
 INVARIANT TagsScoped
